@@ -544,6 +544,31 @@ def handleNames (ver ents : String) (dmg : Option (UInt64 × Nat) := none) : Str
     else bad
   | _, _ => bad
 
+/-- `namesj <version> <entries> <junk>`: a root list with lines that are no entries (blank lines,
+text without a comma, a name without a number, `#` comments — `junk`, hex lines joined by `,`,
+line `i mod n` goes in front of entry `i`, the last one also behind the last entry): such lines
+are ignored, every entry before and behind them is listed.  Correspondence only (the theorem
+`c05_sheet_names` speaks about `encodeRootList`). -/
+def handleNamesJ (ver ents junk : String) : String :=
+  match ver.toInt?, (splitList ents ",").mapM (fun e => do
+      let (n, i) ← pair e ":"
+      some ((← Bytes.ofHexFast n), (← i.toInt?))),
+      (junk.splitOn ",").mapM (fun j => if j == "e" then some [] else Bytes.ofHexFast j) with
+  | some v, some es, some js =>
+    let junkOk := js.all fun j => !j.contains 10 &&
+      (j.isEmpty || j.head? == some 0x23 || !j.contains 0x2c ||
+        (j.getLast? == some 0x2c) || (j.reverse.takeWhile (· != 0x2c)).any (fun c => c < 0x30 || c > 0x39))
+    if decide (WFrootList v es) && junkOk && !js.isEmpty then
+      let showEs := fun (l : List (Bytes × Int)) =>
+        if l.isEmpty then "-" else ",".intercalate (l.map (fun e => s!"{Bytes.toHex e.1}:{e.2}"))
+      let jl := fun (i : Nat) => 10 :: js.getD (i % js.length) []
+      let file := [0x45, 0x58, 0x4c, 0x54, 0x2c] ++ showInt v
+        ++ (es.zipIdx.map (fun (e, i) => jl i ++ 10 :: (e.1 ++ 0x2c :: showInt e.2))).flatten ++ jl es.length
+      let m := ExcelRootList.fromExisting file
+      answer s!"exl {Bytes.toHex file}" s!"{v} {showEs es}" ["corr"] (some s!"{m.version} {showEs m.entries}")
+    else bad
+  | _, _, _ => bad
+
 /-- one case line in, one answer line out (see `Base/Proto.lean`) -/
 def handle (line : String) : String :=
   match fields line with
@@ -576,6 +601,7 @@ def handle (line : String) : String :=
       answer "=" (Bytes.toHex expected) [] (some model)
     | _, _, _ => bad
   | ["names", ver, ents] => handleNames ver ents
+  | ["namesj", ver, ents, junk] => handleNamesJ ver ents junk
   | _ => bad
 
 end Physis.Driver.C05
